@@ -12,10 +12,12 @@
 
    Every operation of the model is covered (c19_step / c19_history range over [proved_op],
    which admits every constructor of [op]; operand types are at most one word or at least
-   two words wide, as all C++ integer types are).  Not modelled, hence not covered: move
-   construction / move assignment, SetIndex, writes through Storage(). *)
+   two words wide, as all C++ integer types are).  Copy / move construction, move assignment
+   (incl. the state of the moved-from object), operator/=, and Storage()[i] = x; SetIndex(k)
+   are modelled and covered too (c19_copy_construct ... c19_set_index below; they are
+   constructors of [op], so c19_step / c19_history range over them). *)
 From Coq Require Import NArith List.
-From Qv Require Import BigIntModel BigIntProofs BigIntProofs2 BigIntHelpers BigIntDiv128 BigIntShift BigIntShiftL BigIntBits BigIntFfb BigIntWide BigIntNarrow BigIntSetWide BigIntOrAnd BigIntTop.
+From Qv Require Import BigIntModel BigIntProofs BigIntProofs2 BigIntHelpers BigIntDiv128 BigIntShift BigIntShiftL BigIntBits BigIntFfb BigIntWide BigIntNarrow BigIntSetWide BigIntOrAnd BigIntMove BigIntTop.
 Import ListNotations.
 Local Open Scope N_scope.
 
@@ -201,6 +203,55 @@ Theorem c19_compare : forall w, 0 < w -> forall s v, WF w s -> v < Bw w ->
 Proof. exact compare_correct. Qed.
 Print Assumptions c19_compare.
 
+(* BigInt(const BigInt &): the new object holds the source's value *)
+Theorem c19_copy_construct : forall w src, WF w src ->
+  exists t, construct_copy src = Ok t /\ WF w t /\ bval w t = bval w src /\
+            length (words t) = length (words src).
+Proof. exact construct_copy_correct. Qed.
+Print Assumptions c19_copy_construct.
+
+(* BigInt(BigInt &&): the value is transferred; the moved-from object is what src.Clear() leaves:
+   the well-formed zero (Index() = 0, every word 0; obs_code = 0).  The model assumes nothing
+   else about it -- it runs the same Clear() on the source as the C++ does. *)
+Theorem c19_move_construct : forall w src, WF w src ->
+  exists t src', move_construct src = Ok (t, src') /\ WF w t /\ bval w t = bval w src /\
+    WF w src' /\ bval w src' = 0 /\ obs_code src' = 0 /\
+    length (words t) = length (words src) /\ length (words src') = length (words src).
+Proof. exact move_construct_correct. Qed.
+Print Assumptions c19_move_construct.
+
+(* operator=(BigInt &&) for this != &src (self-move is a no-op in the code and in the model) *)
+Theorem c19_move_assign : forall w s src, WF w s -> WF w src -> length (words src) = length (words s) ->
+  exists s' src', move_assign s src = Ok (s', src') /\ WF w s' /\ bval w s' = bval w src /\
+    WF w src' /\ bval w src' = 0 /\ obs_code src' = 0 /\
+    length (words s') = length (words s) /\ length (words src') = length (words src).
+Proof. exact move_assign_correct. Qed.
+Print Assumptions c19_move_assign.
+
+(* operator/=: the quotient, remainder dropped (corollary of c19_divide) *)
+Theorem c19_div_assign : forall w s d, WF w s -> 0 < d < Bw w ->
+  exists s', (do '(s', _) <- divide w s d; Ok (s', 0)) = Ok (s', 0) /\ WF w s' /\
+             bval w s' = bval w s / d /\ length (words s') = length (words s).
+Proof. intros w. exact (div_assign_correct w (div2_ok_all w)). Qed.
+Print Assumptions c19_div_assign.
+
+(* read access: Storage()[i] is word i of the value *)
+Theorem c19_storage_read : forall w l i, wordsok w l -> (i < length l)%nat ->
+  (value w l / pw w i) mod Bw w = nth i l 0.
+Proof. exact word_of_value. Qed.
+Print Assumptions c19_storage_read.
+
+(* Storage()[i] = x; SetIndex(k).  SetIndex stores k unchecked; the object satisfies the class
+   invariant again -- and every other theorem applies to it -- exactly when i <= MaxIndex, x is a
+   word and k is the index of the highest non-zero word of the new contents (0 for zero). *)
+Theorem c19_set_index : forall w, 0 < w -> forall s i x k, WF w s -> (i < length (words s))%nat -> x < Bw w ->
+  let p := pw w i in
+  let v' := bval w s - ((bval w s / p) mod Bw w) * p + x * p in
+  k = top_index w v' ->
+  exists s', poke s i x k = Ok s' /\ WF w s' /\ bval w s' = v' /\ length (words s') = length (words s).
+Proof. exact poke_correct. Qed.
+Print Assumptions c19_set_index.
+
 (* [proved_op] admits EVERY operation of the model; the only side condition is on the operand /
    target types (at most one word, or a whole number >= 2 of words) *)
 Theorem c19_every_operation_covered : forall w o, op_types_ok w o -> proved_op w o.
@@ -257,3 +308,18 @@ Theorem c19_history_nonvacuous :
   Forall (proved_op 8) ops /\ exists outs, spec_run 8 9 0 ops = Some outs /\ length outs = 15%nat.
 Proof. exact history_nonvacuous. Qed.
 Print Assumptions c19_history_nonvacuous.
+
+(* non-vacuity of the construction / move / operator/= / SetIndex operations *)
+Theorem c19_move_setindex_nonvacuous :
+  let ops := [OSet 8 7; OShl 8; OOr 8 5; OMoveRound; OCopyRound; OSelfMove; OMoveAssign 8 9; OPoke 2 1 2;
+              ODivAssign 3; OPoke 2 0 1; OPoke 1 0 0] in
+  Forall (proved_op 8) ops /\
+  spec_run 8 3 0 ops = Some [(7, 0); (1792, 0); (1797, 0); (1797, 0); (1797, 0); (1797, 0); (9, 0); (65545, 0);
+                             (21848, 0); (21848, 0); (88, 0)] /\
+  map (fun e => match e with Ok (s, r) => Some (words s, index s, r) | Error _ => None end)
+      (run_ops 8 (zero_big 3) ops)
+  = [Some ([7; 0; 0], 0%nat, 0); Some ([0; 7; 0], 1%nat, 0); Some ([5; 7; 0], 1%nat, 0); Some ([5; 7; 0], 1%nat, 0);
+     Some ([5; 7; 0], 1%nat, 0); Some ([5; 7; 0], 1%nat, 0); Some ([9; 0; 0], 0%nat, 0); Some ([9; 0; 1], 2%nat, 0);
+     Some ([88; 85; 0], 1%nat, 0); Some ([88; 85; 0], 1%nat, 0); Some ([88; 0; 0], 0%nat, 0)].
+Proof. exact move_setindex_example. Qed.
+Print Assumptions c19_move_setindex_nonvacuous.
